@@ -42,7 +42,7 @@ def sx(x: Any) -> str:
     if isinstance(x, int):
         return str(x)
     if isinstance(x, str):
-        return '"' + x.replace("\\", "\\\\").replace('"', '\\"').replace("\n", "\\n") + '"'
+        return '"' + x.replace("\\", "\\\\").replace('"', '\\"').replace("\n", "\\n").replace("\r", "\\r") + '"'
     if isinstance(x, (list, tuple)):
         return "(" + " ".join(sx(i) for i in x) + ")"
     raise TypeError(f"cannot render {x!r}")
@@ -81,7 +81,7 @@ def parse_sx(s: str) -> Any:
             while s[pos] != '"':
                 if s[pos] == "\\":
                     pos += 1
-                    buf.append("\n" if s[pos] == "n" else s[pos])
+                    buf.append("\n" if s[pos] == "n" else ("\r" if s[pos] == "r" else s[pos]))
                 else:
                     buf.append(s[pos])
                 pos += 1
